@@ -23,6 +23,11 @@ type stream struct {
 	from gen.PID
 	to   gen.PID
 	mode int // 0 pid 1 name 2 alias
+	// every bigEvery-th message (0: none) carries a 4 KiB body; with compression enabled those
+	// frames are compressed (above the threshold) and the others are not: both kinds belong to
+	// the same ordered stream
+	bigEvery int
+	comp     gen.Compression
 }
 
 // runStreams sends n numbered messages per stream from A to B (interleaved round robin by
@@ -39,6 +44,12 @@ func runStreams(p *netkit.Pair, streams []stream, n int, during func(i int)) (ma
 			total++
 			mu.Unlock()
 		}
+		if m, ok := r.Message.(netkit.Envelope); ok {
+			mu.Lock()
+			got[int(m.ID/1000000)] = append(got[int(m.ID/1000000)], int(m.ID%1000000))
+			total++
+			mu.Unlock()
+		}
 	}
 	var wg sync.WaitGroup
 	var sendErr error
@@ -46,10 +57,18 @@ func runStreams(p *netkit.Pair, streams []stream, n int, during func(i int)) (ma
 		wg.Add(1)
 		go func(si int, st stream) {
 			defer wg.Done()
-			opts := gen.MessageOptions{KeepNetworkOrder: true}
+			opts := gen.MessageOptions{KeepNetworkOrder: true, Compression: st.comp}
+			big := make([]byte, 4096)
 			for i := 0; i < n; i++ {
 				var err error
-				msg := [2]int{si, i}
+				var msg any = [2]int{si, i}
+				if st.bigEvery > 0 {
+					e := netkit.Envelope{ID: int64(si)*1000000 + int64(i)}
+					if i%st.bigEvery == 0 {
+						e.Body = big
+					}
+					msg = e
+				}
 				switch st.mode {
 				case 0:
 					err = p.ConnA.SendPID(st.from, st.to, opts, msg)
@@ -164,6 +183,13 @@ func propStreams(t *rapid.T) {
 			from: gen.PID{Node: "a@localhost", ID: genID(t), Creation: 1001},
 			to:   gen.PID{Node: "b@localhost", ID: genID(t), Creation: 2002},
 			mode: rapid.IntRange(0, 2).Draw(t, "mode"),
+		}
+		if rapid.IntRange(0, 2).Draw(t, "mixed-sizes") == 0 {
+			st.bigEvery = rapid.IntRange(1, 7).Draw(t, "big-every")
+			if rapid.Bool().Draw(t, "compression") {
+				st.comp = gen.Compression{Enable: true, Threshold: 1024,
+					Type: rapid.SampledFrom([]gen.CompressionType{gen.CompressionTypeGZIP, gen.CompressionTypeZLIB, gen.CompressionTypeLZW}).Draw(t, "ctype")}
+			}
 		}
 		if known && (st.from.ID%255 == 0 || st.to.ID%255 == 0) {
 			recOrder.Excluded(sigOrderZero)
